@@ -28,3 +28,10 @@ func VerifC08Mem(q QueryLog) (out []VerifC08Entry) {
 
 	return out
 }
+
+// VerifC08InitWeb registers the HTTP handlers of q exactly as Start does, but
+// does not start the rotation goroutine (which never ends and, at start-up,
+// may rename the log file under the harness).
+func VerifC08InitWeb(q QueryLog) {
+	q.(*queryLog).initWeb()
+}
